@@ -229,7 +229,8 @@ ProtocolBreak(e) ==
     (IF e.op \in {"Check", "Swap", "NewMnemonicCall", "ByEntropy", "ToSeed", "String"} /\ ~Idle THEN {<<l, "call while another is in flight">>} ELSE {})
     \cup (IF e.op = "NewMnemonic" /\ pc = "idle" THEN {<<l, "return without call">>} ELSE {})
 
-IsCall(e) == e.op \in {"ByEntropy", "Check", "ToSeed", "String", "NewMnemonic", "Sweep", "Gen", "ListSource", "Swap", "Read", "OSRandom", "Recheck", "Buf"}
+IsCall(e) == e.op \in {"ByEntropy", "Check", "ToSeed", "String", "NewMnemonic", "Sweep", "Gen", "ListSource", "Swap", "Read", "OSRandom",
+                       "Recheck", "Buf", "CheckHuge", "ToSeedHuge"}
 
 Step ==
     /\ l <= N
@@ -251,13 +252,13 @@ Step ==
                                                     res |-> IF e.op = "Check" THEN e.err.nil ELSE e.seed])
                     ELSE grp
           /\ cover' = IF "C08" \in Props /\ ValidEnc(e)
-                      THEN [cover EXCEPT ![e.lang] = @ \cup {x \in 0..2047 : \E i \in 1..WordCount(e.ent) : Indices(e.ent)[i] = x}]
+                      THEN LET ix == Indices(e.ent) IN [cover EXCEPT ![e.lang] = @ \cup {ix[i] : i \in 1..Len(ix)}]
                       ELSE cover
           /\ cnt' = [events |-> cnt.events + (IF IsCall(e) THEN 1 ELSE 0), nontrivial |-> cnt.nontrivial]
           /\ l' = l + 1
           /\ (l = N => PrintT(<<"VERDICT", ToJson([lines |-> l, nbad |-> nbad', bad |-> bad', known |-> known',
                                                     drift |-> drift', infra |-> infra',
-                                                    cover |-> [x \in Langs |-> Cardinality(cover'[x])], cnt |-> cnt'])>>))
+                                                    cover |-> [x \in Langs |-> SetToSeq(cover'[x])], cnt |-> cnt'])>>))
 
 TraceSpec == TraceInit /\ [][Step]_vars
 ====
